@@ -739,6 +739,16 @@ func Eq(a, b *Term) *Term {
 			}
 		case OpNot:
 			return Eq(a.args[0], Const(int(a.w), ^b.val))
+		case OpOr:
+			x, y := a.args[0], a.args[1]
+			px, py := mask(a.w)&^knownZero(x), mask(a.w)&^knownZero(y)
+			if px&py == 0 {
+				// disjoint bit ranges: (x|y)==c  <=>  x==c&px && y==c&py && c has no other bits
+				if b.val&^(px|py) != 0 {
+					return TT.False
+				}
+				return BAnd(Eq(x, Const(int(a.w), b.val&px)), Eq(y, Const(int(a.w), b.val&py)))
+			}
 		}
 	}
 	if a.op == OpZExt && b.op == OpZExt && a.args[0].w == b.args[0].w {
@@ -1160,4 +1170,101 @@ func VarsOf(ts ...*Term) []*Term {
 	}
 	sort.Slice(out, func(i, j int) bool { return out[i].id < out[j].id })
 	return out
+}
+
+// Subst rebuilds t with bound variables replaced by constants (memoised).
+func Subst(t *Term, bind map[int]*Term, memo map[int]*Term) *Term {
+	if !t.sym {
+		return t
+	}
+	if r, ok := memo[t.id]; ok {
+		return r
+	}
+	var r *Term
+	switch t.op {
+	case OpVar, OpBVar:
+		if c, ok := bind[t.id]; ok {
+			r = c
+		} else {
+			r = t
+		}
+	default:
+		args := make([]*Term, len(t.args))
+		changed := false
+		for i, a := range t.args {
+			args[i] = Subst(a, bind, memo)
+			if args[i] != a {
+				changed = true
+			}
+		}
+		if !changed {
+			r = t
+		} else {
+			r = rebuild(t, args)
+		}
+	}
+	memo[t.id] = r
+	return r
+}
+
+func rebuild(t *Term, a []*Term) *Term {
+	switch t.op {
+	case OpNot:
+		return Not(a[0])
+	case OpNeg:
+		return Neg(a[0])
+	case OpAnd:
+		return And(a[0], a[1])
+	case OpOr:
+		return Or(a[0], a[1])
+	case OpXor:
+		return Xor(a[0], a[1])
+	case OpAdd:
+		return Add(a[0], a[1])
+	case OpSub:
+		return Sub(a[0], a[1])
+	case OpMul:
+		return Mul(a[0], a[1])
+	case OpUDiv:
+		return UDiv(a[0], a[1])
+	case OpURem:
+		return URem(a[0], a[1])
+	case OpSDiv:
+		return SDiv(a[0], a[1])
+	case OpSRem:
+		return SRem(a[0], a[1])
+	case OpShl:
+		return Shl(a[0], a[1])
+	case OpLShr:
+		return LShr(a[0], a[1])
+	case OpAShr:
+		return AShr(a[0], a[1])
+	case OpConcat:
+		return Concat(a[0], a[1])
+	case OpExtract:
+		return Extract(a[0], int(t.val>>8), int(t.val&0xff))
+	case OpZExt:
+		return ZExt(a[0], int(t.w))
+	case OpSExt:
+		return SExt(a[0], int(t.w))
+	case OpEq:
+		return Eq(a[0], a[1])
+	case OpUlt:
+		return Ult(a[0], a[1])
+	case OpUle:
+		return Ule(a[0], a[1])
+	case OpSlt:
+		return Slt(a[0], a[1])
+	case OpSle:
+		return Sle(a[0], a[1])
+	case OpBNot:
+		return BNot(a[0])
+	case OpBAnd:
+		return BAnd(a[0], a[1])
+	case OpBOr:
+		return BOr(a[0], a[1])
+	case OpIte:
+		return Ite(a[0], a[1], a[2])
+	}
+	panic("rebuild: bad op")
 }
